@@ -360,6 +360,46 @@ def run(ctx):
             chk.ok("R10.c", c.qualname, init.loc(), "constructor chain subscribes once behind the guard")
     if n_cls < 15:
         raise AnalysisError(f"only {n_cls} observer classes in the cone (floor 15)")
+    # `subscribe=False` must reach the base constructor: a non-subscribed
+    # observer receives nothing
+    n_fw = 0
+    for c in cone:
+        init = c.methods.get("__init__")
+        if init is None or init is obs_init or "subscribe" not in init.params:
+            continue
+        supers = [
+            n for n in own_nodes(init.node)
+            if isinstance(n, ast.Call) and isinstance(n.func, ast.Attribute) and n.func.attr == "__init__"
+            and (
+                (isinstance(n.func.value, ast.Call) and isinstance(n.func.value.func, ast.Name) and n.func.value.func.id == "super")
+                or (isinstance(n.func.value, ast.Name) and repo.resolve(init.module.name, n.func.value.id) in c.mro)
+            )
+        ]
+        if not supers:
+            raise AnalysisError(f"{init.qualname}: no super().__init__ call found")
+        for call in supers:
+            n_fw += 1
+            fw = [k for k in call.keywords if k.arg == "subscribe"]
+            ok = bool(fw) and isinstance(fw[0].value, ast.Name) and fw[0].value.id == "subscribe"
+            if not ok:
+                # positional forwarding
+                tgt = repo.super_method(c, c, "__init__")
+                if tgt is not None and "subscribe" in tgt.params:
+                    idx = tgt.params.index("subscribe") - 1
+                    if 0 <= idx < len(call.args) and isinstance(call.args[idx], ast.Name) and call.args[idx].id == "subscribe":
+                        ok = True
+            if ok:
+                chk.ok("R10.c", init.qualname, init.loc(call), "subscribe flag forwarded to the base constructor")
+            else:
+                chk.violation(
+                    "R10.c", init, call,
+                    f"{c.name}.__init__ accepts `subscribe` but does not forward it to the base constructor: "
+                    "an observer created with subscribe=False is subscribed anyway (and twice once attached by hand)",
+                    loc=init.loc(call),
+                )
+    chk.analysed["subscribe_flag_forwardings"] = n_fw
+    if n_fw < 8:
+        raise AnalysisError(f"only {n_fw} subscribe-forwarding constructor calls found (floor 8)")
 
     # ---------------------------------------------------------------- R10.d
     hist = repo.find_class("HistoryObserver")
